@@ -71,12 +71,14 @@ func Run(c *verdict.Ctx) int {
 	c.Rule = "batch: one non-empty generated batch applied (in all / 20 orderings) to a set whose priorities come from earlier batches and rounds, distinct by (case, step); " +
 		"sched: one stretch of >= 20 rounds of a set with >= 2 members compared round by round, distinct by (case, segment); " +
 		"history: one chain run through ApplyBlock + state store in which >= 1 validator change took effect and >= 1 LoadValidators answer that the store had to reconstruct by >= 2 rounds was compared, distinct by (case, initial height, length); " +
-		"initchain: one chain whose first validator set was adopted by the real Handshaker from the application's InitChain answer (or, for the empty answer, kept from the genesis file), driven 8-15 heights with >= 1 validator update, every height's set, round 1..3 proposers and LoadValidators answer compared, distinct by (case, answer mode, initial height, length)"
+		"initchain: one chain whose first validator set was adopted by the real Handshaker from the application's InitChain answer (or, for the empty answer, kept from the genesis file), driven 8-15 heights with >= 1 validator update, every height's set, round 1..3 proposers and LoadValidators answer compared, distinct by (case, answer mode, initial height, length); " +
+		"statesync: one node whose state was built by the real light-client state provider State(H) from two honest in-process RPC servers, stored with Bootstrap and driven 6-12 further heights of the chain, every LoadValidators answer in [H, tip+2] compared after every block, distinct by (case, initial height, H, heights after)"
 	c.Assume(
 		"reference ref/valset.go: rounding choices the spec text leaves open are fixed as: scale divisor = ceil(spread/2T), scaled priorities truncated toward zero, average rounded toward minus infinity; a new member enters at -(P + floor(P/8)) with P = total after the batch's additions and power changes and before its removals",
 		"limit on the total power = MaxInt64/8 (spec: 'Validator Power Overflow Conditions')",
 		"proportionality bound: in a window of rounds without changes during which the reference never rescales, |turns_i - m*p_i/T| <= 4 + n/T; this follows from centred priorities staying inside a window of 2T (DESIGN's +-3 is not implied by the algorithm); the bound is asserted on the reference's own elections too, and the worst windows seen (with and without rescaling) are reported as measurements",
 		"initchain: the Handshaker runs against an empty MemDB block store and state store with the state LoadFromDBOrGenesisDoc returns, as node.NewNode does; the application answers Info with height 0",
+		"statesync: the RPC servers (rpc/jsonrpc/server, routes commit / validators / consensus_params) are honest and answer /validators with the sets in force in canonical order with their priorities; the light client runs on the real clock with a 100-year trusting period over block times in 2020; a 120 s watchdog yields inconclusive",
 		"history: commits are signed with harness-held ed25519 keys; block time = median of scripted vote times; MemDB state store; the recorded truth is state.Validators / state.NextValidators of the live run",
 	)
 	if ref.MaxTotalPower != types.MaxTotalVotingPower {
@@ -104,6 +106,8 @@ func Run(c *verdict.Ctx) int {
 			guarded(c, "history", histCase)(w.Case)
 		case "initchain":
 			guarded(c, "initchain", initCase)(w.Case)
+		case "statesync":
+			guarded(c, "statesync", ssCase)(w.Case)
 		default:
 			fmt.Fprintln(os.Stderr, "unknown stream in replay file:", w.Stream)
 			return 2
@@ -125,10 +129,13 @@ func Run(c *verdict.Ctx) int {
 	lap("history")
 	parallel(c.N(1000, 20000), guarded(c, "initchain", initCase))
 	lap("initchain")
+	parallel(c.N(300, 4000), guarded(c, "statesync", ssCase))
+	lap("statesync")
 
-	if c.Counter("history.lookups_reconstructed_by_2_or_more_rounds") == 0 || c.Counter("history.prunes") == 0 ||
+	if c.Violations() == 0 && (c.Counter("history.lookups_reconstructed_by_2_or_more_rounds") == 0 || c.Counter("history.prunes") == 0 ||
 		c.Counter("history.heights_next_to_checkpoint") == 0 || c.Counter("sched.rounds_compared") == 0 || c.Counter("batch.applied") == 0 ||
-		c.Counter("initchain.lookups_compared") == 0 || c.Counter("initchain.validator_updates_applied") == 0 || c.Counter("initchain.mode.fresh") == 0 {
+		c.Counter("initchain.lookups_compared") == 0 || c.Counter("initchain.validator_updates_applied") == 0 || c.Counter("initchain.mode.fresh") == 0 ||
+		c.Counter("statesync.lookups_compared") == 0 || c.Counter("statesync.sets_at_H_H+1_H+2_pairwise_different") == 0) {
 		c.HarnessError("C08: a monitor observed nothing (reconstructed lookups / prunes / checkpoint crossings / rounds / batches)")
 	}
 	return c.Finish(c.N(2000, 100000))
